@@ -1,0 +1,84 @@
+//go:build verif
+
+// Contracts (machine-checked by /verif/bin/govc) of the gNB-side NGAP message builders the emulator
+// uses (C13): message class, procedure code and criticality, the list of IEs with identifier and
+// criticality as TS 38.413 clause 9.2 tabulates them (constants transcribed in /verif/spec/ngap38413,
+// never taken from the library's own constants), and each caller-supplied value at its place; every
+// PLMN field is the PLMN announced at NG Setup (TestPlmn).  Comment-only file.
+
+package ngapTestpacket
+
+//@ func BuildNGSetupRequest
+//@ prop C13 C11
+//@ requires plmn: len(mobilePLMN) == 3
+//@ ensures class: pdu.Present == 1 && pdu.InitiatingMessage != nil && pdu.SuccessfulOutcome == nil && pdu.UnsuccessfulOutcome == nil
+//@ ensures head: pdu.InitiatingMessage.ProcedureCode.Value == ngap38413.ProcNGSetup && pdu.InitiatingMessage.Criticality.Value == ngap38413.Reject && pdu.InitiatingMessage.Value.NGSetupRequest != nil
+//@ ensures ies: vcIEs(vcNGSetupIDs(pdu), []int64{ngap38413.IEGlobalRANNodeID, ngap38413.Reject, ngap38413.IERANNodeName, ngap38413.Ignore, ngap38413.IESupportedTAList, ngap38413.Reject, ngap38413.IEDefaultPagingDRX, ngap38413.Ignore})
+//@ ensures announced: vcSame(TestPlmn.Value, mobilePLMN)
+//@ ensures plmn: vcSame(pdu.InitiatingMessage.Value.NGSetupRequest.ProtocolIEs.List[0].Value.GlobalRANNodeID.GlobalGNBID.PLMNIdentity.Value, mobilePLMN) && vcSame(pdu.InitiatingMessage.Value.NGSetupRequest.ProtocolIEs.List[2].Value.SupportedTAList.List[0].BroadcastPLMNList.List[0].PLMNIdentity.Value, mobilePLMN)
+//@ ensures gnbid: pdu.InitiatingMessage.Value.NGSetupRequest.ProtocolIEs.List[0].Value.GlobalRANNodeID.Present == 1 && pdu.InitiatingMessage.Value.NGSetupRequest.ProtocolIEs.List[0].Value.GlobalRANNodeID.GlobalGNBID.GNBID.GNBID != nil
+//@ assigns &TestPlmn
+
+//@ func BuildUplinkNasTransport
+//@ prop C13
+//@ ensures class: pdu.Present == 1 && pdu.InitiatingMessage != nil && pdu.SuccessfulOutcome == nil && pdu.UnsuccessfulOutcome == nil
+//@ ensures head: pdu.InitiatingMessage.ProcedureCode.Value == ngap38413.ProcUplinkNASTransport && pdu.InitiatingMessage.Criticality.Value == ngap38413.Ignore && pdu.InitiatingMessage.Value.UplinkNASTransport != nil
+//@ ensures ies: vcIEs(vcUplinkNASIDs(pdu), []int64{ngap38413.IEAMFUENGAPID, ngap38413.Reject, ngap38413.IERANUENGAPID, ngap38413.Reject, ngap38413.IENASPDU, ngap38413.Reject, ngap38413.IEUserLocationInformation, ngap38413.Ignore})
+//@ ensures ids: pdu.InitiatingMessage.Value.UplinkNASTransport.ProtocolIEs.List[0].Value.AMFUENGAPID.Value == amfUeNgapID && pdu.InitiatingMessage.Value.UplinkNASTransport.ProtocolIEs.List[1].Value.RANUENGAPID.Value == ranUeNgapID
+//@ ensures nas: vcSame(pdu.InitiatingMessage.Value.UplinkNASTransport.ProtocolIEs.List[2].Value.NASPDU.Value, nasPdu)
+//@ ensures plmn: vcSame(pdu.InitiatingMessage.Value.UplinkNASTransport.ProtocolIEs.List[3].Value.UserLocationInformation.UserLocationInformationNR.NRCGI.PLMNIdentity.Value, TestPlmn.Value) && vcSame(pdu.InitiatingMessage.Value.UplinkNASTransport.ProtocolIEs.List[3].Value.UserLocationInformation.UserLocationInformationNR.TAI.PLMNIdentity.Value, TestPlmn.Value)
+
+//@ func BuildInitialUEMessage
+//@ prop C13
+//@ shape fiveGSTmsi 0
+//@ ensures class: pdu.Present == 1 && pdu.InitiatingMessage != nil && pdu.SuccessfulOutcome == nil && pdu.UnsuccessfulOutcome == nil
+//@ ensures head: pdu.InitiatingMessage.ProcedureCode.Value == ngap38413.ProcInitialUEMessage && pdu.InitiatingMessage.Criticality.Value == ngap38413.Ignore && pdu.InitiatingMessage.Value.InitialUEMessage != nil
+//@ ensures ies: vcIEs(vcInitialUEIDs(pdu), []int64{ngap38413.IERANUENGAPID, ngap38413.Reject, ngap38413.IENASPDU, ngap38413.Reject, ngap38413.IEUserLocationInformation, ngap38413.Reject, ngap38413.IERRCEstablishmentCause, ngap38413.Ignore, ngap38413.IEUEContextRequest, ngap38413.Ignore})
+//@ ensures ids: pdu.InitiatingMessage.Value.InitialUEMessage.ProtocolIEs.List[0].Value.RANUENGAPID.Value == ranUeNgapID
+//@ ensures nas: vcSame(pdu.InitiatingMessage.Value.InitialUEMessage.ProtocolIEs.List[1].Value.NASPDU.Value, nasPdu)
+//@ ensures plmn: vcSame(pdu.InitiatingMessage.Value.InitialUEMessage.ProtocolIEs.List[2].Value.UserLocationInformation.UserLocationInformationNR.NRCGI.PLMNIdentity.Value, TestPlmn.Value) && vcSame(pdu.InitiatingMessage.Value.InitialUEMessage.ProtocolIEs.List[2].Value.UserLocationInformation.UserLocationInformationNR.TAI.PLMNIdentity.Value, TestPlmn.Value)
+
+//@ func BuildInitialContextSetupResponseForRegistraionTest
+//@ prop C13
+//@ ensures class: pdu.Present == 2 && pdu.SuccessfulOutcome != nil && pdu.InitiatingMessage == nil && pdu.UnsuccessfulOutcome == nil
+//@ ensures head: pdu.SuccessfulOutcome.ProcedureCode.Value == ngap38413.ProcInitialContextSetup && pdu.SuccessfulOutcome.Criticality.Value == ngap38413.Reject && pdu.SuccessfulOutcome.Value.InitialContextSetupResponse != nil
+//@ ensures ies: vcIEs(vcICSResIDs(pdu), []int64{ngap38413.IEAMFUENGAPID, ngap38413.Ignore, ngap38413.IERANUENGAPID, ngap38413.Ignore})
+//@ ensures ids: pdu.SuccessfulOutcome.Value.InitialContextSetupResponse.ProtocolIEs.List[0].Value.AMFUENGAPID.Value == amfUeNgapID && pdu.SuccessfulOutcome.Value.InitialContextSetupResponse.ProtocolIEs.List[1].Value.RANUENGAPID.Value == ranUeNgapID
+
+//@ func BuildPDUSessionResourceSetupResponseForRegistrationTest
+//@ prop C13
+//@ requires ip: len(ipv4) >= 1 && net.ParseIP(ipv4).To4() != nil
+//@ ensures class: pdu.Present == 2 && pdu.SuccessfulOutcome != nil && pdu.InitiatingMessage == nil && pdu.UnsuccessfulOutcome == nil
+//@ ensures head: pdu.SuccessfulOutcome.ProcedureCode.Value == ngap38413.ProcPDUSessionResourceSetup && pdu.SuccessfulOutcome.Criticality.Value == ngap38413.Reject && pdu.SuccessfulOutcome.Value.PDUSessionResourceSetupResponse != nil
+//@ ensures ies: vcIEs(vcPSRSetupResIDs(pdu), []int64{ngap38413.IEAMFUENGAPID, ngap38413.Ignore, ngap38413.IERANUENGAPID, ngap38413.Ignore, ngap38413.IEPDUSessionResourceSetupListSURes, ngap38413.Ignore})
+//@ ensures ids: pdu.SuccessfulOutcome.Value.PDUSessionResourceSetupResponse.ProtocolIEs.List[0].Value.AMFUENGAPID.Value == amfUeNgapID && pdu.SuccessfulOutcome.Value.PDUSessionResourceSetupResponse.ProtocolIEs.List[1].Value.RANUENGAPID.Value == ranUeNgapID
+//@ ensures psi: len(pdu.SuccessfulOutcome.Value.PDUSessionResourceSetupResponse.ProtocolIEs.List[2].Value.PDUSessionResourceSetupListSURes.List) == 1 && pdu.SuccessfulOutcome.Value.PDUSessionResourceSetupResponse.ProtocolIEs.List[2].Value.PDUSessionResourceSetupListSURes.List[0].PDUSessionID.Value == pduId
+
+//@ func BuildPDUSessionResourceReleaseResponseForReleaseTest
+//@ prop C13
+//@ ensures class: pdu.Present == 2 && pdu.SuccessfulOutcome != nil && pdu.InitiatingMessage == nil && pdu.UnsuccessfulOutcome == nil
+//@ ensures head: pdu.SuccessfulOutcome.ProcedureCode.Value == ngap38413.ProcPDUSessionResourceRelease && pdu.SuccessfulOutcome.Criticality.Value == ngap38413.Reject && pdu.SuccessfulOutcome.Value.PDUSessionResourceReleaseResponse != nil
+//@ ensures ies: vcIEs(vcPSRReleaseResIDs(pdu), []int64{ngap38413.IEAMFUENGAPID, ngap38413.Ignore, ngap38413.IERANUENGAPID, ngap38413.Ignore, ngap38413.IEPDUSessionResourceReleasedListRelRes, ngap38413.Ignore})
+//@ ensures ids: pdu.SuccessfulOutcome.Value.PDUSessionResourceReleaseResponse.ProtocolIEs.List[0].Value.AMFUENGAPID.Value == amfUeNgapID && pdu.SuccessfulOutcome.Value.PDUSessionResourceReleaseResponse.ProtocolIEs.List[1].Value.RANUENGAPID.Value == ranUeNgapID
+//@ ensures psi: len(pdu.SuccessfulOutcome.Value.PDUSessionResourceReleaseResponse.ProtocolIEs.List[2].Value.PDUSessionResourceReleasedListRelRes.List) == 1 && pdu.SuccessfulOutcome.Value.PDUSessionResourceReleaseResponse.ProtocolIEs.List[2].Value.PDUSessionResourceReleasedListRelRes.List[0].PDUSessionID.Value == pduId
+
+//@ func BuildUEContextReleaseComplete
+//@ prop C13
+//@ maynil pduSessionIDList
+//@ requires nolist: pduSessionIDList == nil
+//@ ensures class: pdu.Present == 2 && pdu.SuccessfulOutcome != nil && pdu.InitiatingMessage == nil && pdu.UnsuccessfulOutcome == nil
+//@ ensures head: pdu.SuccessfulOutcome.ProcedureCode.Value == ngap38413.ProcUEContextRelease && pdu.SuccessfulOutcome.Criticality.Value == ngap38413.Reject && pdu.SuccessfulOutcome.Value.UEContextReleaseComplete != nil
+//@ ensures ies: vcIEs(vcUECtxRelCplIDs(pdu), []int64{ngap38413.IEAMFUENGAPID, ngap38413.Ignore, ngap38413.IERANUENGAPID, ngap38413.Ignore, ngap38413.IEUserLocationInformation, ngap38413.Ignore})
+//@ ensures ids: pdu.SuccessfulOutcome.Value.UEContextReleaseComplete.ProtocolIEs.List[0].Value.AMFUENGAPID.Value == amfUeNgapID && pdu.SuccessfulOutcome.Value.UEContextReleaseComplete.ProtocolIEs.List[1].Value.RANUENGAPID.Value == ranUeNgapID
+//@ ensures plmn: vcSame(pdu.SuccessfulOutcome.Value.UEContextReleaseComplete.ProtocolIEs.List[2].Value.UserLocationInformation.UserLocationInformationNR.NRCGI.PLMNIdentity.Value, TestPlmn.Value) && vcSame(pdu.SuccessfulOutcome.Value.UEContextReleaseComplete.ProtocolIEs.List[2].Value.UserLocationInformation.UserLocationInformationNR.TAI.PLMNIdentity.Value, TestPlmn.Value)
+
+//@ func BuildInitialContextSetupResponse
+//@ prop C13
+//@ maynil pduSessionFailedList
+//@ requires nofail: pduSessionFailedList == nil
+//@ requires ip: len(ipv4) >= 1 && net.ParseIP(ipv4).To4() != nil
+//@ ensures class: pdu.Present == 2 && pdu.SuccessfulOutcome != nil && pdu.InitiatingMessage == nil && pdu.UnsuccessfulOutcome == nil
+//@ ensures head: pdu.SuccessfulOutcome.ProcedureCode.Value == ngap38413.ProcInitialContextSetup && pdu.SuccessfulOutcome.Criticality.Value == ngap38413.Reject && pdu.SuccessfulOutcome.Value.InitialContextSetupResponse != nil
+//@ ensures ies: vcIEs(vcICSResIDs(pdu), []int64{ngap38413.IEAMFUENGAPID, ngap38413.Ignore, ngap38413.IERANUENGAPID, ngap38413.Ignore, ngap38413.IEPDUSessionResourceSetupListCxtRes, ngap38413.Ignore})
+//@ ensures ids: pdu.SuccessfulOutcome.Value.InitialContextSetupResponse.ProtocolIEs.List[0].Value.AMFUENGAPID.Value == amfUeNgapID && pdu.SuccessfulOutcome.Value.InitialContextSetupResponse.ProtocolIEs.List[1].Value.RANUENGAPID.Value == ranUeNgapID
+//@ ensures psi: len(pdu.SuccessfulOutcome.Value.InitialContextSetupResponse.ProtocolIEs.List[2].Value.PDUSessionResourceSetupListCxtRes.List) == 1 && pdu.SuccessfulOutcome.Value.InitialContextSetupResponse.ProtocolIEs.List[2].Value.PDUSessionResourceSetupListCxtRes.List[0].PDUSessionID.Value == pduId
